@@ -165,12 +165,16 @@ add("C20", "lifecycle-sim", "exploration",
     "DESIGN.md section 4, C20")
 
 add("C13", "restart-sim", "exploration",
-    "deterministic simulation: export -> cold restart from the export alone (json stream/file, xlsx file, chains of hops) with truncation and lost-write storage faults; field-by-field, power-flow and initialisation equality with the original",
+    "deterministic simulation: export -> cold restart from the export alone (json stream/file, xlsx file, chains of hops, MATPOWER dict of the static network after seeded off/duplicate/alter operations) with truncation and lost-write storage faults; field-by-field, power-flow and initialisation equality with the original",
     "Partial claim (round-trip clause as cold restart from durable state; parser-vs-source and cross-format equivalence are pure functions "
     "of file content and not claimed). Every stock case (xlsx, json, raw+dyr, matpower sources) is exported and a new System is built from "
     "the export alone, through one to three hops over json and xlsx; exported parameters must be equal field by field, the power-flow "
     "solution equal to 1e-12 and the dynamic-initialisation residual vectors equal. A truncated or lost export must fail loudly (exception, "
-    "None, non-zero CLI status) or load to an equal system, never to a different one.",
+    "None, non-zero CLI status) or load to an equal system, never to a different one. MATPOWER export clause: the static network of a stock case "
+    "(seeded bus-index typing and device order; seeded loads / shunts / lines / generators out of service, a second load or shunt on a bus, "
+    "altered set points) is exported with system2mpc and a new System built by mpc2system from the dict alone must have the same power flow "
+    "at every bus (1e-8); networks the format cannot hold (other power-flow devices, asymmetric branch shunts, loads outside their voltage "
+    "range) count as precondition unmet.",
     "Trusted: equality is judged on exported input-base parameters; bit flips are not injected because neither format carries a checksum "
     "over names and numbers.", "DESIGN.md section 4, C13")
 
